@@ -710,10 +710,51 @@ def run_respec(case):
     return R(None, template, nontrivial=True, steps=1, tags={template})
 
 
+# ---------------------------------------------------------------------------
+# bindings made per item of a LAZY iterator that a later chain step consumes stay inside the item, like those of an eager list spec
+
+LAZY_PRODUCERS = {
+    'Iter(A.x)': lambda: Iter(A.x), 'Iter(S(x=T))': lambda: Iter(S(x=T)), 'Iter().map(A.x)': lambda: Iter().map(A.x),
+    'Iter((A.x, T))': lambda: Iter((A.x, T)), 'Iter().filter(A.x)': lambda: Iter().filter((A.x, Val(True))),
+    'eager-list': lambda: [A.x], 'eager-all': lambda: Iter(A.x).all(),
+}
+LAZY_CONSUMERS = {'list': lambda: list, 'tuple': lambda: tuple, 'lambda': lambda: (lambda it: [v for v in it]), 'list-spec': lambda: [T], 'sum': lambda: (lambda it: sum(1 for _ in it))}
+LAZY_SHAPES = ['tuple', 'pipe', 'dict-value-then-sibling', 'outer-binding-survives']
+
+
+def run_lazy_binder(case):
+    pname, cname, shape = case
+    prod, cons = LAZY_PRODUCERS[pname](), LAZY_CONSUMERS[cname]()
+    reader = Coalesce(S.x, default='not visible')
+    if shape == 'tuple':
+        spec, want = (prod, cons, reader), 'not visible'
+    elif shape == 'pipe':
+        spec, want = Pipe(prod, cons, reader), 'not visible'
+    elif shape == 'dict-value-then-sibling':
+        spec, want = {'a': (prod, cons), 'b': reader}, None
+    else:
+        spec, want = (S(x=Val('outer')), prod, cons, S.x), 'outer'
+    try:
+        got = glom([1, 2, 3], spec)
+    except Exception as e:
+        got = e
+    if shape == 'dict-value-then-sibling':
+        ok = isinstance(got, dict) and got.get('b') == 'not visible'
+    else:
+        ok = not isinstance(got, Exception) and got == want
+    if not ok:
+        return R({'expected': 'the per-item binding of x is not visible to the step after the consumer (%r)' % (want,), 'observed': repr(got),
+                  'producer': pname, 'consumer': cname, 'shape': shape}, 'lazy-leak')
+    return R(None, shape, nontrivial=True, steps=1, tags={pname, cname, shape})
+
+
 def subs(tier, only=None):
     from ..engine import fast_tracebacks
     fast_tracebacks()
     out = [
+        Sub('lazy-binders', [[p_, c_, s_] for p_ in LAZY_PRODUCERS for c_ in LAZY_CONSUMERS for s_ in LAZY_SHAPES], run_lazy_binder,
+            rule='case = (producer that binds x per item - five lazy Iter forms, two eager forms; the chain step that consumes it; composite shape): '
+                 'after the consumer, x is what it was before the producer', min_nontrivial=100, min_outcomes=4, required_tags=['Iter(A.x)', 'list', 'tuple']),
         Sub('shadowing-values', [[v, b, r] for v in SHADOW_VALUES for b in SHADOW_BINDERS for r in SHADOW_READERS], run_shadow,
             rule='case = (value of the inner binding incl. None / 0 / empty containers, kind of inner binder, way of reading the name): the inner '
                  'value is read inside, the outer one outside', min_nontrivial=100, min_outcomes=4, required_tags=['none', 'S.x', 'spec-scope']),
